@@ -43,7 +43,8 @@ Record wf := mkWf {
   w_nv : N;            (* flat instructions in flight (likewise, InFlightVectorMemAccess) *)
   (* ghost, never read by the transition function *)
   w_arr : nat;         (* s_barrier instructions issued *)
-  w_pass : nat         (* times released by passBarrier *)
+  w_pass : nat;        (* times released by passBarrier *)
+  w_pc : nat           (* calls of cu.UpdatePCAndSetReady: how many instructions the wavefront has moved past *)
 }.
 
 (** OutstandingScalarMemAccess / OutstandingVectorMemAccess: a flat
@@ -57,14 +58,17 @@ Definition st_eqb (a b : wstate) : bool :=
   | _, _ => false
   end.
 
+(** a state change; a change to Ready here is always UpdatePCAndSetReady (the
+    completion of the current instruction), which also moves the PC *)
 Definition set_st (w : wf) (s : wstate) : wf :=
-  mkWf (w_wg w) s (w_inst w) (w_ns w) (w_nv w) (w_arr w) (w_pass w).
+  mkWf (w_wg w) s (w_inst w) (w_ns w) (w_nv w) (w_arr w) (w_pass w)
+       (match s with WReady => S (w_pc w) | _ => w_pc w end).
 
 (** cu.UpdatePCAndSetReady as called from setAllWfStateToReady *)
 Definition release (w : wf) : wf :=
   match w_st w with
   | WCompleted => w
-  | _ => mkWf (w_wg w) WReady (w_inst w) (w_ns w) (w_nv w) (w_arr w) (S (w_pass w))
+  | _ => mkWf (w_wg w) WReady (w_inst w) (w_ns w) (w_nv w) (w_arr w) (S (w_pass w)) (S (w_pc w))
   end.
 
 Record cu := mkCu {
@@ -198,9 +202,29 @@ Inductive ev :=
 | EIssue (i : nat) (k : ikind) (* DoIssue picks wavefront i whose next instruction is of kind k *)
 | EDone (i : nat)              (* the execution unit finished wavefront i's instruction *)
 | ERsp (i : nat) (flat : bool) (* last response of a scalar load / flat access of wavefront i *)
-| EEval (budget : nat).        (* one EvaluateInternalInst pass *)
+| EEval (budget : nat)         (* one EvaluateInternalInst pass *)
+| EFlush                       (* ComputeUnit.flushPipeline (CUPipelineFlushReq from the command processor) *)
+| ERestart.                    (* CUPipelineRestartReq: the in-flight accesses are replayed from the shadow buffers *)
 
-Definition fresh_wf (g : nat) : wf := mkWf g WReady KNone 0 0 0 0.
+(** flushPipeline: populateShadowBuffers (the in-flight tables move to the
+    shadow buffers: every access stays outstanding, its reply will come from
+    the replayed request), setWavesToReady (every wavefront that has not ended
+    becomes Ready *without* UpdatePC: the instruction it was executing, e.g.
+    an s_waitcnt, s_barrier or s_endpgm held by the scheduler, is executed
+    again after the restart), Scheduler.Flush (barrierBuffer and
+    internalExecuting dropped), all execution units emptied.  The wait
+    counters are not touched.  Ghost: an s_barrier that is rolled back no
+    longer counts as executed. *)
+Definition unwind (w : wf) : wf :=
+  match w_st w with
+  | WCompleted => w
+  | _ => mkWf (w_wg w) WReady (w_inst w) (w_ns w) (w_nv w) (w_pass w) (w_pass w) (w_pc w)
+  end.
+
+Definition flush (s : cu) : cu :=
+  mkCu (map unwind (wfs s)) [] [] (bcap s) (sent s) (crashed s).
+
+Definition fresh_wf (g : nat) : wf := mkWf g WReady KNone 0 0 0 0 0.
 
 Definition step (fx : bool) (s : cu) (e : ev) : cu :=
   if crashed s then s else
@@ -215,7 +239,7 @@ Definition step (fx : bool) (s : cu) (e : ev) : cu :=
       | _, KNone => s
       | WReady, _ =>
         let w' := mkWf (w_wg w) WRunning k (w_ns w) (w_nv w)
-                       (match k with KBar => S (w_arr w) | _ => w_arr w end) (w_pass w) in
+                       (match k with KBar => S (w_arr w) | _ => w_arr w end) (w_pass w) (w_pc w) in
         let s1 := setw s i w' in
         if is_special k then set_internal s1 (internal s1 ++ [i]) else s1   (* issueToInternal *)
       | _, _ => s
@@ -227,8 +251,8 @@ Definition step (fx : bool) (s : cu) (e : ev) : cu :=
     | Some w =>
       match w_st w, w_inst w with
       | WRunning, KPlain => setw s i (set_st w WReady)
-      | WRunning, KSLoad => setw s i (mkWf (w_wg w) WReady (w_inst w) (w_ns w + 1) (w_nv w) (w_arr w) (w_pass w))
-      | WRunning, KFlat => setw s i (mkWf (w_wg w) WReady (w_inst w) (w_ns w) (w_nv w + 1) (w_arr w) (w_pass w))
+      | WRunning, KSLoad => setw s i (mkWf (w_wg w) WReady (w_inst w) (w_ns w + 1) (w_nv w) (w_arr w) (w_pass w) (S (w_pc w)))
+      | WRunning, KFlat => setw s i (mkWf (w_wg w) WReady (w_inst w) (w_ns w) (w_nv w + 1) (w_arr w) (w_pass w) (S (w_pc w)))
       | _, _ => s
       end
     | None => s
@@ -237,12 +261,14 @@ Definition step (fx : bool) (s : cu) (e : ev) : cu :=
     match get s i with
     | Some w =>
       if flat then
-        if (0 <? w_nv w)%N then setw s i (mkWf (w_wg w) (w_st w) (w_inst w) (w_ns w) (w_nv w - 1) (w_arr w) (w_pass w)) else s
+        if (0 <? w_nv w)%N then setw s i (mkWf (w_wg w) (w_st w) (w_inst w) (w_ns w) (w_nv w - 1) (w_arr w) (w_pass w) (w_pc w)) else s
       else
-        if (0 <? w_ns w)%N then setw s i (mkWf (w_wg w) (w_st w) (w_inst w) (w_ns w - 1) (w_nv w) (w_arr w) (w_pass w)) else s
+        if (0 <? w_ns w)%N then setw s i (mkWf (w_wg w) (w_st w) (w_inst w) (w_ns w - 1) (w_nv w) (w_arr w) (w_pass w) (w_pc w)) else s
     | None => s
     end
   | EEval b => eval fx b s
+  | EFlush => flush s
+  | ERestart => s     (* replayed requests get new IDs; nothing the scheduler reads changes *)
   end.
 
 Definition run (fx : bool) (s : cu) (evs : list ev) : cu := fold_left (step fx) evs s.
@@ -325,6 +351,8 @@ Definition ed i := TEv (EDone i).
 Definition er i f := TEv (ERsp i f).
 Definition ee b := TEv (EEval b).
 Definition ck := TChkD.
+Definition ef := TEv EFlush.
+Definition es := TEv ERestart.
 
 Definition mismatches := mismatches_from true 0.
 Definition mismatches_old := mismatches_from false 0.
